@@ -161,7 +161,7 @@ class C10:
         self.impl = LineProc(self.impl_argv, "impl-rdb-c10")
         self.impl_loads = 0
         self.model = LineProc(["sh", "-c", "ulimit -s 2000000 2>/dev/null || ulimit -s unlimited 2>/dev/null; exec " + os.path.join(LEAN_BIN, "drv_" + FAMILY)], "lean-" + FAMILY)
-        if self.model.ask("cfg %s %d %d" % (hx(facts["version"].encode()), facts["dropExpired"], facts["keepEmptyStream"])) != "ok":
+        if self.model.ask(R.cfg_line(facts)) != "ok":
             raise InternalError("Lean driver refused cfg")
         self.oracle_failures = []      # (what, replay dict)
         self.known_hits = {}
